@@ -1593,6 +1593,14 @@ func (s *Store) processLTXStreamFrame(ctx context.Context, frame *LTXStreamFrame
 		return fmt.Errorf("fsync ltx file: %w", err)
 	}
 
+	// Validate file with an LTX decoder before renaming. A damaged file must
+	// not become the newest file of the log or be applied to the database.
+	if _, err := f.Seek(0, io.SeekStart); err != nil {
+		return fmt.Errorf("seek for validation: %w", err)
+	} else if err := ltx.NewDecoder(f).Verify(); err != nil {
+		return fmt.Errorf("ltx validation error: %w", err)
+	}
+
 	// Atomically rename file.
 	if err := s.OS.Rename("PROCESSLTX", tmpPath, path); err != nil {
 		return fmt.Errorf("rename ltx file: %w", err)
